@@ -52,6 +52,7 @@ contract(
 contract(
     "esutil.coords._thetaphi2xyz",
     params=dict(theta="arr[real]", phi="arr[real]"),
+    returns="tuple[arr[real],arr[real],arr[real]]",
     requires={"same-length": "len(theta) == len(phi)"},
     ensures={"unit-length": "all(result[0][k] * result[0][k] + result[1][k] * result[1][k] + result[2][k] * result[2][k] == 1 for k in range(0, len(theta)))",
              "one-vector-per-point": "len(result[0]) == len(theta) and len(result[1]) == len(theta) and len(result[2]) == len(theta)"},
@@ -138,3 +139,22 @@ contract(
     materialize=True, light_trig=True, libm_axioms=["arccos-decreasing", "arccos-cos"],
     props=["C19"], runtime=False, timeout=20,
 )
+
+
+# module-level dict filled by subscript assignments (not a literal): its two entries used here, as exact rationals of the
+# code's own expressions (185 - 90) * D2R and 32.5 * D2R with D2R = math.pi / 180
+from fractions import Fraction as _Fr  # noqa: E402
+import math as _math  # noqa: E402
+_SDSSPAR = {"node": _Fr(_math.pi) * 95 / 180, "etapole": _Fr(_math.pi) * _Fr(65, 2) / 180}
+
+for _u in ("deg", "rad"):
+    contract(
+        "esutil.coords.eq2xyz#" + _u, runtime_name="esutil.coords.eq2xyz",
+        params=dict(ra="arr[real]", dec="arr[real]", dtype="const:'f8'", units="const:%r" % _u, stomp="bool"),
+        globals=dict(_sdsspar=_SDSSPAR),
+        requires={"same-length": "len(ra) == len(dec)"},
+        ensures={"unit-length": "all(result[0][k] * result[0][k] + result[1][k] * result[1][k] + result[2][k] * result[2][k] == 1 for k in range(0, len(ra)))",
+                 "inputs-untouched": "arr_eq(ra, old(ra)) and arr_eq(dec, old(dec))"},
+        materialize=True,
+        props=["C09", "C08", "C15"], runtime=False,
+    )
